@@ -351,7 +351,13 @@ func (fr *Frame) applyContract(fc *FuncContract, name, short string, ord int, si
 	if fc.Trusted {
 		g.trusted["contract "+short] = true
 	}
+	if fc.NoBody {
+		g.trusted["assumed contract (nobody) "+short] = true
+	}
 	vars := bindParams(sig, recv, args, false)
+	if ci, ok := in.(ssa.CallInstruction); ok && !ci.Common().IsInvoke() && ci.Common().StaticCallee() == nil {
+		vars["callee"] = fr.val(ci.Common().Value) // the function value being called (dynamic:<Type> contracts)
+	}
 	// closures: free variables by name
 	if callee != nil && len(callee.FreeVars) > 0 {
 		if mc, ok := in.(*ssa.Call); ok {
@@ -360,6 +366,18 @@ func (fr *Frame) applyContract(fc *FuncContract, name, short string, ord int, si
 				if i < len(fv.Bind) {
 					b := fv.Bind[i]
 					vars["&"+f.Name()] = b
+					// the captured variable by name: read in whatever state the clause is evaluated in
+					if pt, ok := f.Type().Underlying().(*types.Pointer); ok {
+						if b.Loc != nil {
+							vars[f.Name()] = Val{Loc: b.Loc, Go: pt.Elem(), Sort: g.sorts.SortOf(pt.Elem())}
+						} else if b.T != "" {
+							if _, isStruct := pt.Elem().Underlying().(*types.Struct); !isStruct {
+								vars[f.Name()] = Val{Loc: &Loc{Heap: g.cellHeap(pt.Elem()), Idx: []string{b.T}, T: pt.Elem()}, Go: pt.Elem(), Sort: g.sorts.SortOf(pt.Elem())}
+							}
+						}
+					} else {
+						vars[f.Name()] = b
+					}
 				}
 			}
 		}
@@ -391,6 +409,12 @@ func (fr *Frame) applyContract(fc *FuncContract, name, short string, ord int, si
 		lbl := r.Label
 		if lbl == "" {
 			lbl = fmt.Sprint(i + 1)
+		}
+		if !fr.panics && (fc.Trusted && strings.Contains(fc.File, "/specs/stdlib/") || strings.HasPrefix(lbl, "nonnil")) {
+			// `requires [nonnil] …` clauses are panic conditions too
+			// preconditions of library functions are their panic conditions: in `panics ignored` functions they are assumed
+			g.assume(sImp(reach, t))
+			continue
 		}
 		g.oblige("call-pre", fr.oname(fmt.Sprintf("call[%s#%d].requires", short, ord), lbl), lbl, fr.props, reach, t, r.Src, in.Pos())
 	}
@@ -1051,6 +1075,8 @@ func (fr *Frame) runAnchors(keys []string, when string, st *State, reach string,
 				}
 				if call.Call.IsInvoke() {
 					env.vars["recv"] = fr.val(call.Call.Value)
+				} else if call.Call.StaticCallee() == nil {
+					env.vars["callee"] = fr.val(call.Call.Value)
 				}
 				if res.T != "" {
 					env.vars["ret"] = res
